@@ -161,7 +161,7 @@ func ReachesCall(fn *ssa.Function, depth int, names ...string) []ssa.CallInstruc
 				out = append(out, c)
 			}
 			if d > 0 {
-				if cal := c.Common().StaticCallee(); cal != nil && cal.Pkg == fn.Pkg {
+				if cal := CalleeFn(c.Common()); cal != nil && cal.Pkg == fn.Pkg {
 					walk(cal, d-1)
 				}
 				if cl := FuncOfValue(c.Common().Value); cl != nil && cl.Parent() != nil {
@@ -184,7 +184,7 @@ func CallsLeadingTo(fn *ssa.Function, depth int, names ...string) []ssa.CallInst
 			out = append(out, c)
 			continue
 		}
-		cal := c.Common().StaticCallee()
+		cal := CalleeFn(c.Common())
 		if cal == nil {
 			cal = FuncOfValue(c.Common().Value)
 		}
@@ -203,7 +203,7 @@ func Callers(fns []*ssa.Function, target *ssa.Function) []ssa.CallInstruction {
 	var out []ssa.CallInstruction
 	for _, f := range fns {
 		for _, c := range CallsIn(f) {
-			if c.Common().StaticCallee() == target {
+			if CalleeFn(c.Common()) == target {
 				out = append(out, c)
 			}
 		}
